@@ -29,8 +29,9 @@ def jobs(tier):
         for form in range(5):
             add('rational/%s/%s' % (OPN[op], FORM[form]), 'h_arith', [B, op, form], desc='%s in form %s on finite canonical operands' % (OPN[op], FORM[form]))
     add('inf_rational/cmp', 'h_infrat_cmp', [min(B, 5)], desc='lexicographic order of inf_rational, comparisons with rational and integer, sign predicates')
-    for op in range(5):
-        add('inf_rational/arith%d' % op, 'h_infrat_arith', [B, op], desc='inf_rational component-wise arithmetic, op %d' % op)
+    IOPS = ['a+b', 'a-b', 'a*rat', 'a/rat', '-a', 'a+rat', 'a-rat', 'a+int', 'a-int', 'a*int', 'a/int', 'rat+a', 'rat-a', 'rat*a', 'int+a', 'int-a', 'int*a']
+    for op in range(17):
+        add('inf_rational/arith%d' % op, 'h_infrat_arith', [B, op], desc='inf_rational arithmetic, form %s (binary and compound / mirrored form)' % IOPS[op])
     LOPS = ['lin+lin', 'lin+=lin', 'lin-lin', 'lin-=lin', 'lin+rat', 'rat+lin', 'lin+=rat', 'lin-rat', 'rat-lin', 'lin-=rat', 'lin*rat', 'rat*lin', 'lin*=rat', 'lin/rat', 'lin/=rat', '-lin']
     LB = 4
     UW = 8
